@@ -146,26 +146,27 @@ CHECKS.update({
 # Additions after the second round of seeded changes (appended to the coverage text of each check).
 EXTRA = {
  "C01": " Also: real keys whose true digest lies outside fd00::/8, and victims that already know the honest owner of an address when the same address arrives under another real key (hop record and ping header). Third round: every easing bit flipped; a known router's peering request with one corrupted record field signed with its real key.",
- "C02": " The appendix is also changed through the API (SetAppendixData by a forwarder that parsed the frame off a link with link margins, and by the sender on its sealed frame) to sizes that stay in place or move the frame into every bigger buffer tier. Two independent key exchanges that both crossed a key rollover must stay separate.",
- "C03": " Histories also contain events of the session itself: the 32-bit wrap of one direction's regular counter with priority traffic in both directions, and key-setup attempts with hostile key-exchange values; in-order first deliveries must be accepted, every second delivery refused. Damaged copies (flipped authentication bit, also of frames far ahead) are delivered between genuine frames.",
- "C04": " A scripted client (messages written by hand with the peer's real keys) plays a router that names the universe but lacks the secret and mirrors the victim's own challenge/universe auth, and a peer that completes two parallel connections one after the other (the second link must be refused or sealed). Classes with a universe secret but no universe name.",
- "C05": " Link frames are also reflected back to their own sender. The stream re-segmented into reads of 1/2/3/7/1000 bytes; replays and duplicates across a key rollover of the link session (hook VerifLinkEncryption).",
- "C06": " Service URLs with out-of-range ports and other ill-formed services the parser accepts must open nothing beyond the well-formed services; a refused flow is sent again after authentic error pings of every non-key kind and a pong request from the sender and a third router.",
- "C07": " After the authentic frame: immediate replays with a changed message or signature byte; for announcements a fresh one extended by a hop record naming a known router under a foreign key. A quiet router (never answered by the victim) whose announcement is replayed after newer frames and a disconnect.",
+ "C02": " The appendix is also changed through the API (SetAppendixData by a forwarder that parsed the frame off a link with link margins, and by the sender on its sealed frame) to sizes that stay in place or move the frame into every bigger buffer tier. Two independent key exchanges that both crossed a key rollover must stay separate. Priority traffic before the wrap.",
+ "C03": " Histories also contain events of the session itself: the 32-bit wrap of one direction's regular counter with priority traffic in both directions, and key-setup attempts with hostile key-exchange values; in-order first deliveries must be accepted, every second delivery refused. Damaged copies (flipped authentication bit, also of frames far ahead) are delivered between genuine frames. Signed frames in the event histories; both ends installing new keys as an event.",
+ "C04": " A scripted client (messages written by hand with the peer's real keys) plays a router that names the universe but lacks the secret and mirrors the victim's own challenge/universe auth, and a peer that completes two parallel connections one after the other (the second link must be refused or sealed). Classes with a universe secret but no universe name. The peer's last message for a third router delivered in place of the one for this router; a first-contact ping claiming an address under a foreign key followed by a handshake for that address signed with that key.",
+ "C05": " Link frames are also reflected back to their own sender. The stream re-segmented into reads of 1/2/3/7/1000 bytes; replays and duplicates across a key rollover of the link session (hook VerifLinkEncryption). Early frames of a fresh link replayed while the receiver is in the rollover zone (judged by bounded progress).",
+ "C06": " Service URLs with out-of-range ports and other ill-formed services the parser accepts must open nothing beyond the well-formed services; a refused flow is sent again after authentic error pings of every non-key kind and a pong request from the sender and a third router. A prohibited local destination retried on other connections after error pings about it.",
+ "C07": " After the authentic frame: immediate replays with a changed message or signature byte; for announcements a fresh one extended by a hop record naming a known router under a foreign key. A quiet router (never answered by the victim) whose announcement is replayed after newer frames and a disconnect. A probe handler counts dispatches: replays after exactly 1/2/63/64/65/128 lost later pings of the class; a refused announcement naming an unknown address followed by a hello claiming it.",
  "C08": " Announcements with hop records are also delivered on the link of their origin. An inner hop record under a foreign key, also after the victim refused a peering request claiming that address with that key; a second authentic announcement sharing relays with the first on the same victim.",
  "C10": " Frames injected with TTL 0; originated requests (signed and encrypted) of every message size around each pooled-buffer tier must leave with the link margins and arrive 2 hops away. Frames over a real link (real writer/reader) under re-segmentation.",
- "C11": " Best-first is also checked against delay sums computed by the monitor from the hops (paths whose hop delays sum beyond 16 bits included). AddRoute bystander rule: only a refreshed same route, a replaced peer route or one non-peer route under cap pressure may disappear.",
- "C12": " Paths are also rebuilt in place on a struct that already carries blocks (route refresh); the rebuilt path must traverse exactly and the copy handed out earlier must be unchanged. Routes updated through a routing table (take out, change labels, store again); forward blocks carried in real frames up to exactly 255 bytes and rotated in place.",
+ "C11": " Best-first is also checked against delay sums computed by the monitor from the hops (paths whose hop delays sum beyond 16 bits included). AddRoute bystander rule: only a refreshed same route, a replaced peer route or one non-peer route under cap pressure may disappear. Saturation of one prefix exactly to its bounds; real nested prefix configs flooded on both sides of the own prefix, then cleaned.",
+ "C12": " Paths are also rebuilt in place on a struct that already carries blocks (route refresh); the rebuilt path must traverse exactly and the copy handed out earlier must be unchanged. Routes updated through a routing table (take out, change labels, store again); forward blocks carried in real frames up to exactly 255 bytes and rotated in place. Real routes carried through real switches of a virtual mesh, block reversal checked at the destination, return trip over the reversed block.",
  "C13": " The victim's own requests (keep-alive pong, routed pong, key setup) are answered once, repeatedly (separately signed) and with hostile bodies; correctly signed handshake responses/acks with hostile bodies; race-detector part: one peer opening two connections at once, again and again. First-contact pings from addresses that are the digest of odd-sized keys; hostile value per field of otherwise genuine handshake responses/acks incl. 20-40 KB values in hand-written frames.",
- "C14": " Also from a prior completed setup with traffic in both directions after which one router lost its keys and initiates again (the other re-keys its used session in place). Several local workers starting a setup at once.",
+ "C14": " Also from a prior completed setup with traffic in both directions after which one router lost its keys and initiates again (the other re-keys its used session in place). Several local workers starting a setup at once. Housekeeping ticks of the hello handler as schedule actions.",
  "C16": " Two of the five identities have addresses from which no switch label can be derived (their links get random labels). Manager close concurrent with another link setup; gossip route to a peer via another peer.",
- "C17": " Builds the builder must refuse (empty/oversized message, switch block, appendix) are part of the operation alphabet.",
- "C19": " Mappings stored under names outside .myco (incl. names merely ending in 'myco') must not make those names answerable; lookups run concurrently with mapping updates (plain build: answers unchanged, no fatal error; race-detector build anchored on the store and the resolver). One failed write deadline on the resolver's socket, then bounded-progress probes; bounded stop.",
- "C20": " One child mode runs under taskset on a single CPU (runtime.NumCPU()==1). Long universe names, 25-35 advertised services; a first cycle in which the routers meet nobody (state file on).",
- "C09": " Stars/trees with 8.8-9.4 KB router infos.",
+ "C17": " Builds the builder must refuse (empty/oversized message, switch block, appendix) are part of the operation alphabet. Replies the builder must refuse; a pipeline workload in which building and releasing goroutines differ.",
+ "C19": " Mappings stored under names outside .myco (incl. names merely ending in 'myco') must not make those names answerable; lookups run concurrently with mapping updates (plain build: answers unchanged, no fatal error; race-detector build anchored on the store and the resolver). One failed write deadline on the resolver's socket, then bounded-progress probes; bounded stop. A mapping changed and removed between two queries through the DNS handler.",
+ "C20": " One child mode runs under taskset on a single CPU (runtime.NumCPU()==1). Long universe names, 25-35 advertised services; a first cycle in which the routers meet nobody (state file on). Peering through router.bootstrap; listeners and peer URLs on the IPv6 loopback.",
+ "C09": " Stars/trees with 8.8-9.4 KB router infos. Router infos growing byte by byte to the 10000-byte message limit.",
  "C15": " The duplex workload tracks both classes of the direction whose key does not change.",
 }
-ENGINE_EXTRA = {"C19": " + E5 race detector", "C13": " + E5 race detector"}
+ENGINE_EXTRA = {"C19": " + E5 race detector", "C13": " + E5 race detector", "C12": " + E1 vmesh (real switches) + real frames", "C10": " + E2 wire (real link under re-segmentation)",
+                "C04": " + E1 vmesh victim (ping handler and peering manager together)", "C08": " + E2 wire (refused peering request)", "C02": " + repository test helper (counter preset)", "C09": ""}
 TECH_EXTRA = {"C19": "; Go race detector on lookups concurrent with mapping updates", "C13": "; Go race detector on simultaneous connections of one peer (anchors: key-exchange state, setup state machine, ping handlers)",
               "C04": "; scripted client with real keys (universe-auth mirror, sequential completion of two parallel connections)", "C03": "; session-event histories (counter wrap, hostile key setups)"}
 
